@@ -134,6 +134,7 @@ var contexts = []string{"idle", "toggling", "erroring", "cold", "panicking"}
 type progT struct {
 	Ctx  string `json:"ctx"`
 	A, B string
+	C    string `json:",omitempty"` // third operation (thorough tier)
 }
 
 var raceLog string
@@ -203,7 +204,11 @@ func runProgram(p progT, byName map[string]opT) {
 	}
 	var g sync.WaitGroup
 	start := make(chan struct{})
-	for _, o := range []string{p.A, p.B} {
+	opsOf := []string{p.A, p.B}
+	if p.C != "" {
+		opsOf = append(opsOf, p.C)
+	}
+	for _, o := range opsOf {
 		op := byName[o]
 		g.Add(1)
 		go func() {
@@ -368,7 +373,21 @@ func TestCheck(t *testing.T) {
 		for _, c := range contexts {
 			for i, a := range all {
 				for _, b := range all[i:] {
-					progs = append(progs, progT{c, a.name, b.name})
+					progs = append(progs, progT{Ctx: c, A: a.name, B: b.name})
+				}
+			}
+		}
+	}
+	// thorough: also every unordered triple of 14 core operations (three
+	// goroutines, one operation each) in every context
+	if kit.Thorough() && kit.ReplayPath() == "" {
+		core := []string{"Add1(A)", "Remove1(A)", "Set(E)", "AddErr", "CanAdd1(C)", "Is1", "Time", "StateNames", "When1", "NewStateCtx", "HandlersBind", "BindTracer", "Export", "Eval"}
+		for _, c := range contexts {
+			for i := range core {
+				for j := i; j < len(core); j++ {
+					for k := j; k < len(core); k++ {
+						progs = append(progs, progT{Ctx: c, A: core[i], B: core[j], C: core[k]})
+					}
 				}
 			}
 		}
@@ -381,7 +400,7 @@ func TestCheck(t *testing.T) {
 	if kit.ReplayPath() == "" {
 		for i, a := range nms {
 			for _, b := range nms[i:] {
-				progs = append(progs, progT{"netmach", a.name, b.name})
+				progs = append(progs, progT{Ctx: "netmach", A: a.name, B: b.name})
 			}
 		}
 	}
